@@ -39,6 +39,16 @@ Section Assoc.
     match aget k m with Some _ => true | None => false end.
 End Assoc.
 
+(** canonical (key-sorted) form of a map with unique keys, so that Go maps (dumped sorted by
+    key) and model maps compare structurally *)
+Fixpoint insert_sorted {V} (k : string) (v : V) (m : list (string * V)) : list (string * V) :=
+  match m with
+  | [] => [(k, v)]
+  | (k', v') :: r => if String.leb k k' then (k, v) :: m else (k', v') :: insert_sorted k v r
+  end.
+Definition sort_map {V} (m : list (string * V)) : list (string * V) :=
+  fold_right (fun kv acc => insert_sorted (fst kv) (snd kv) acc) [] m.
+
 Fixpoint smem (k : string) (l : list string) : bool :=
   match l with [] => false | x :: r => String.eqb k x || smem k r end.
 Fixpoint sdel (k : string) (l : list string) : list string :=
